@@ -80,7 +80,106 @@ fn within_limits(view: &V) -> Result<(), String> {
     Ok(())
 }
 
-fn check_ctap2(r: &ctap2::Request<'_>) -> Result<(), (String, String)> {
+/// every borrowed slice / string of the generated value must lie inside the input buffer
+/// (the generators hand out references into it; one that reaches past its end is a memory-safety
+/// fault even if nothing panics)
+struct Range {
+    lo: usize,
+    hi: usize,
+}
+impl Range {
+    fn of(input: &[u8]) -> Range {
+        Range { lo: input.as_ptr() as usize, hi: input.as_ptr() as usize + input.len() }
+    }
+    fn holds(&self, what: &str, p: &[u8]) -> Result<(), (String, String)> {
+        let a = p.as_ptr() as usize;
+        if p.is_empty() || (a >= self.lo && a + p.len() <= self.hi) {
+            Ok(())
+        } else {
+            Err(("borrowed-data-outside-input".into(), format!("{}: {} bytes at offset {} of a {}-byte input", what, p.len(), a as isize - self.lo as isize, self.hi - self.lo)))
+        }
+    }
+}
+
+fn borrowed_ctap2(r: &ctap2::Request<'_>, rg: &Range) -> Result<(), (String, String)> {
+    use ctap_types::webauthn::PublicKeyCredentialDescriptorRef as D;
+    let desc = |what: &str, d: &D<'_>| -> Result<(), (String, String)> {
+        rg.holds(what, d.id)?;
+        rg.holds(what, d.key_type.as_bytes())
+    };
+    match r {
+        ctap2::Request::MakeCredential(x) => {
+            rg.holds("clientDataHash", x.client_data_hash)?;
+            for d in x.exclude_list.iter().flatten() {
+                desc("excludeList", d)?;
+            }
+            if let Some(p) = x.pin_auth {
+                rg.holds("pinUvAuthParam", p)?;
+            }
+        }
+        ctap2::Request::GetAssertion(x) => {
+            rg.holds("rpId", x.rp_id.as_bytes())?;
+            rg.holds("clientDataHash", x.client_data_hash)?;
+            for d in x.allow_list.iter().flatten() {
+                desc("allowList", d)?;
+            }
+            if let Some(p) = x.pin_auth {
+                rg.holds("pinUvAuthParam", p)?;
+            }
+        }
+        ctap2::Request::ClientPin(x) => {
+            for (n, p) in [("pinUvAuthParam", x.pin_auth), ("newPinEnc", x.new_pin_enc), ("pinHashEnc", x.pin_hash_enc)] {
+                if let Some(p) = p {
+                    rg.holds(n, p)?;
+                }
+            }
+            if let Some(s) = x.rp_id {
+                rg.holds("rpId", s.as_bytes())?;
+            }
+        }
+        ctap2::Request::CredentialManagement(x) => {
+            if let Some(p) = &x.sub_command_params {
+                if let Some(h) = p.rp_id_hash {
+                    rg.holds("rpIDHash", &h[..])?;
+                }
+                if let Some(d) = &p.credential_id {
+                    desc("credentialID", d)?;
+                }
+            }
+            if let Some(p) = x.pin_auth {
+                rg.holds("pinUvAuthParam", p)?;
+            }
+        }
+        ctap2::Request::LargeBlobs(x) => {
+            if let Some(p) = x.set {
+                rg.holds("set", p)?;
+            }
+            if let Some(p) = x.pin_uv_auth_param {
+                rg.holds("pinUvAuthParam", p)?;
+            }
+        }
+        _ => {}
+    }
+    Ok(())
+}
+
+fn borrowed_ctap1(r: &ctap1::Request<'_>, rg: &Range) -> Result<(), (String, String)> {
+    match r {
+        ctap1::Request::Register(x) => {
+            rg.holds("challenge", x.challenge)?;
+            rg.holds("application", x.app_id)
+        }
+        ctap1::Request::Authenticate(x) => {
+            rg.holds("challenge", x.challenge)?;
+            rg.holds("application", x.app_id)?;
+            rg.holds("keyHandle", x.key_handle)
+        }
+        ctap1::Request::Version => Ok(()),
+    }
+}
+
+fn check_ctap2(r: &ctap2::Request<'_>, rg: &Range) -> Result<(), (String, String)> {
+    borrowed_ctap2(r, rg)?;
     let view = bind::observe_request(r);
     if !all_text_valid(&view) {
         return Err(("ill-formed-utf8-in-text-field".into(), format!("{:?}", view)));
@@ -105,7 +204,8 @@ fn check_ctap2(r: &ctap2::Request<'_>) -> Result<(), (String, String)> {
     Ok(())
 }
 
-fn check_ctap1(r: &ctap1::Request<'_>) -> Result<(), (String, String)> {
+fn check_ctap1(r: &ctap1::Request<'_>, rg: &Range) -> Result<(), (String, String)> {
+    borrowed_ctap1(r, rg)?;
     DBG.with(|d| {
         use std::fmt::Write;
         let mut d = d.borrow_mut();
@@ -127,21 +227,22 @@ fn check_ctap1(r: &ctap1::Request<'_>) -> Result<(), (String, String)> {
 /// generator 0 = CTAP1, 1 = CTAP2, 2 = combined
 pub fn check(gen: u8, input: &[u8]) -> (Verdict, &'static str) {
     breadcrumb(TAG_ARBITRARY, input);
+    let rg = Range::of(input);
     let r = guard(|| {
         let mut u = Unstructured::new(input);
         match gen {
             0 => match ctap1::Request::arbitrary(&mut u) {
                 Err(_) => Ok("ran out of bytes"),
-                Ok(r) => check_ctap1(&r).map(|_| "ctap1 request"),
+                Ok(r) => check_ctap1(&r, &rg).map(|_| "ctap1 request"),
             },
             1 => match ctap2::Request::arbitrary(&mut u) {
                 Err(_) => Ok("ran out of bytes"),
-                Ok(r) => check_ctap2(&r).map(|_| "ctap2 request"),
+                Ok(r) => check_ctap2(&r, &rg).map(|_| "ctap2 request"),
             },
             _ => match authenticator::Request::arbitrary(&mut u) {
                 Err(_) => Ok("ran out of bytes"),
-                Ok(authenticator::Request::Ctap1(r)) => check_ctap1(&r).map(|_| "ctap1 request"),
-                Ok(authenticator::Request::Ctap2(r)) => check_ctap2(&r).map(|_| "ctap2 request"),
+                Ok(authenticator::Request::Ctap1(r)) => check_ctap1(&r, &rg).map(|_| "ctap1 request"),
+                Ok(authenticator::Request::Ctap2(r)) => check_ctap2(&r, &rg).map(|_| "ctap2 request"),
             },
         }
     });
@@ -158,7 +259,7 @@ fn case(gen: u8, input: &[u8], family: &str) -> Value {
 }
 
 pub fn run(ctx: &'static Ctx) {
-    ctx.rule("state = (generator, input byte string from an exhaustive family); the generated value must be Err(out of data) or a request whose text fields are valid UTF-8 and within capacity, that can be formatted, cloned, compared and dispatched; non-trivial = a request was generated");
+    ctx.rule("state = (generator, input byte string from an exhaustive family); the generated value must be Err(out of data) or a request whose text fields are valid UTF-8 and within capacity, whose borrowed data lies inside the input, and that can be formatted, cloned, compared and dispatched; non-trivial = a request was generated");
     ctx.assume("the quantifier's seeded random strings are replaced by exhaustive families with the same bias: all periodic inputs, bounded byte deviations from three bases, all short words after each variant-selecting prefix, UTF-8 pattern words repeated across every capacity");
     // G1: every single-byte-repeated input b^n, n in 0..=4096
     let nmax: u64 = 4096;
@@ -246,19 +347,35 @@ pub fn run(ctx: &'static Ctx) {
             l.fail(ctx, idx, v, || case(gen, &input, "G2"));
         }
     });
-    // G3: every string over an 8-value alphabet of length <= 6 in front of / behind a long tail,
-    // after each variant-selecting 4-byte prefix
-    let a8: [u8; 8] = [0x00, 0x01, 0x7f, 0x80, 0xc3, 0xe2, 0xf0, 0xff];
+    // variant-selecting prefixes: derive(Arbitrary) picks variant (u32_le * N) >> 32
+    let sel = |k: u64, n: u64| -> [u8; 4] { ((((k << 32) + (1 << 31)) / n) as u32).to_le_bytes() };
+    let mut prefixes: Vec<(u8, Vec<u8>)> = Vec::new();
+    for k in 0..3 {
+        prefixes.push((0, sel(k, 3).to_vec()));
+    }
+    for k in 0..10 {
+        prefixes.push((1, sel(k, 10).to_vec()));
+    }
+    for k in 0..3 {
+        let mut p = sel(0, 2).to_vec();
+        p.extend(sel(k, 3));
+        prefixes.push((2, p));
+    }
+    for k in 0..10 {
+        let mut p = sel(1, 2).to_vec();
+        p.extend(sel(k, 10));
+        prefixes.push((2, p));
+    }
+    // G3: every word over an 8-value alphabet after each variant prefix, at the head or the tail
+    let a8: [u8; 8] = [0x00, 0x01, 0x40, 0x41, 0x80, 0xc3, 0xf0, 0xff];
     let wmax: u32 = if ctx.thorough() { 6 } else { 5 };
     let words: u64 = (0..=wmax).map(|k| 8u64.pow(k)).sum();
-    let prefixes: Vec<[u8; 4]> = (0..16u8).map(|i| [i.wrapping_mul(17), i.wrapping_mul(37), 0xff - i, i]).collect();
     let pr = &prefixes;
-    sweep(ctx, "G3: every word of length <= 6 over 8 byte values after each prefix", 3 * prefixes.len() as u64 * words * 2, "16 four-byte prefixes (variant selection) x 299 593 words x {word at the head of a 300-byte 'a' tail, word at the tail} x three generators", move |idx, l| {
-        let gen = (idx % 3) as u8;
-        let mut r = idx / 3;
+    sweep(ctx, "G3: every short word over 8 byte values after each variant-selecting prefix", prefixes.len() as u64 * words * 2, "26 prefixes (every variant of every generator) x every word up to the length bound over {00,01,40,41,80,C3,F0,FF} x {word right after the prefix followed by a 300-byte tail, word at the very end (length selectors are drawn from the tail)}", move |idx, l| {
+        let mut r = idx;
         let at_tail = r % 2 == 1;
         r /= 2;
-        let p = pr[(r / words) as usize];
+        let (gen, p) = &pr[(r / words) as usize];
         let mut w = r % words;
         let mut len = 0u32;
         while w >= 8u64.pow(len) {
@@ -269,7 +386,7 @@ pub fn run(ctx: &'static Ctx) {
         for k in (0..len).rev() {
             word.push(a8[((w / 8u64.pow(k)) % 8) as usize]);
         }
-        let mut input = p.to_vec();
+        let mut input = p.clone();
         if at_tail {
             input.extend(std::iter::repeat(b'a').take(300));
             input.extend(&word);
@@ -277,13 +394,36 @@ pub fn run(ctx: &'static Ctx) {
             input.extend(&word);
             input.extend(std::iter::repeat(b'a').take(300));
         }
-        let (v, class) = check(gen, &input);
+        let (v, class) = check(*gen, &input);
         l.bump(class);
         if class != "ran out of bytes" {
             l.nontrivial += 1;
         }
         if !v.ok {
-            l.fail(ctx, idx, v, || case(gen, &input, "G3"));
+            l.fail(ctx, idx, v, || case(*gen, &input, "G3"));
+        }
+    });
+    // G5: all 65 536 two-byte words right after each variant prefix (every vendor code, every
+    // sub-command byte, every length selector pair)
+    sweep(ctx, "G5: every two-byte word after each variant-selecting prefix", prefixes.len() as u64 * 65536 * 2, "26 prefixes x 65 536 words x {followed by 64 zero bytes, followed by 300 bytes of 'a'}", move |idx, l| {
+        let long = idx % 2 == 1;
+        let r = idx / 2;
+        let (gen, p) = &pr[(r / 65536) as usize];
+        let w = (r % 65536) as u16;
+        let mut input = p.clone();
+        input.extend_from_slice(&w.to_be_bytes());
+        if long {
+            input.extend(std::iter::repeat(b'a').take(300));
+        } else {
+            input.extend(std::iter::repeat(0u8).take(64));
+        }
+        let (v, class) = check(*gen, &input);
+        l.bump(class);
+        if class != "ran out of bytes" {
+            l.nontrivial += 1;
+        }
+        if !v.ok {
+            l.fail(ctx, idx, v, || case(*gen, &input, "G5"));
         }
     });
     // G4: UTF-8 pattern words repeated to lengths around every capacity
